@@ -36,11 +36,66 @@ class States:
                     return None
                 out.add(c)
             return frozenset(out)
+        if isinstance(expr, (ast.ListComp, ast.SetComp, ast.GeneratorExp)) and len(expr.generators) == 1:
+            # [x for x in IkeSa.State if <comparisons of x with states>]
+            g = expr.generators[0]
+            if isinstance(g.target, ast.Name) and isinstance(expr.elt, ast.Name) and expr.elt.id == g.target.id \
+                    and src(g.iter).split('.')[-1] == 'State':
+                out = set()
+                for name, val in self.members.items():
+                    keep = True
+                    for c in g.ifs:
+                        v = self._cmp_val(c, g.target.id, val)
+                        if v is None:
+                            return None
+                        keep = keep and v
+                    if keep:
+                        out.add(name)
+                return frozenset(out)
+            return None
         if isinstance(expr, ast.Call) and src(expr.func) == 'range' and len(expr.args) == 2:
             lo, hi = self.int_of(expr.args[0]), self.int_of(expr.args[1])
             if lo is None or hi is None:
                 return None
             return frozenset(n for n, v in self.members.items() if lo <= v < hi)
+        return None
+
+    def _cmp_val(self, c, var, val):
+        """truth of a comparison chain / and / or / not over `var` (bound to the integer val) and state constants"""
+        def num(e):
+            if isinstance(e, ast.Name) and e.id == var:
+                return val
+            return self.int_of(e)
+        if isinstance(c, ast.BoolOp):
+            vs = [self._cmp_val(x, var, val) for x in c.values]
+            if any(v is None for v in vs):
+                return None
+            return all(vs) if isinstance(c.op, ast.And) else any(vs)
+        if isinstance(c, ast.UnaryOp) and isinstance(c.op, ast.Not):
+            v = self._cmp_val(c.operand, var, val)
+            return None if v is None else not v
+        if isinstance(c, ast.Compare):
+            left = num(c.left)
+            for op, r in zip(c.ops, c.comparators):
+                if isinstance(op, (ast.In, ast.NotIn)):
+                    cs = self.const_set(r)
+                    if cs is None or left is None:
+                        return None
+                    inside = any(self.members[n] == left for n in cs)
+                    if inside != isinstance(op, ast.In):
+                        return False
+                    continue
+                right = num(r)
+                if left is None or right is None:
+                    return None
+                ok = {ast.Eq: left == right, ast.NotEq: left != right, ast.Lt: left < right, ast.LtE: left <= right,
+                      ast.Gt: left > right, ast.GtE: left >= right}.get(type(op))
+                if ok is None:
+                    return None
+                if not ok:
+                    return False
+                left = right
+            return True
         return None
 
     def int_of(self, expr):
